@@ -286,6 +286,8 @@ def main(argv=None):
         return replay(a.replay)
     prop = a.prop
     tier = a.tier if a.tier in ("quick", "thorough") else "quick"
+    if tier == "thorough":
+        os.environ.setdefault("VERIF_PAR", str(min(16, os.cpu_count() or 4)))
     seed = int(os.environ.get("VERIF_SEED", "0") or 0)
     t0 = time.time()
     manifest = json.load(open(os.path.join(HERE, "MANIFEST.json")))
